@@ -56,3 +56,28 @@ def utmi_rx_contract(m, domain, rx_active, rx_valid):
     prev_active = Signal(name="c_prev_rx_active")
     m.d[domain] += prev_active.eq(rx_active)
     return ~rx_valid | (rx_active & prev_active)
+
+
+class PacketSpy:
+    """Ghost recorder of the bytes of the current UTMI receive packet.
+
+    A packet is the span of rx_active; a byte is a cycle with rx_active & rx_valid.  `end` is a combinational
+    strobe in the first cycle rx_active is low after a packet; `count`/`bytes` then describe the finished packet
+    (count saturates at nbytes+1).  Monitors register their expectation in that cycle and compare it with the
+    DUT's (registered) strobes in the following one."""
+
+    def __init__(self, m, domain, rx_data, rx_active, rx_valid, nbytes, name="spy"):
+        self.count = Signal(range(nbytes + 2), name=f"{name}_count")
+        self.bytes = [Signal(8, name=f"{name}_b{i}") for i in range(nbytes)]
+        self.prev_active = Signal(name=f"{name}_prev_active")
+        self.end = Signal(name=f"{name}_end")
+        m.d[domain] += self.prev_active.eq(rx_active)
+        m.d.comb += self.end.eq(self.prev_active & ~rx_active)
+        with m.If(~rx_active):
+            m.d[domain] += self.count.eq(0)
+        with m.Elif(rx_valid):
+            with m.If(self.count <= nbytes):
+                m.d[domain] += self.count.eq(self.count + 1)
+            for i in range(nbytes):
+                with m.If(self.count == i):
+                    m.d[domain] += self.bytes[i].eq(rx_data)
